@@ -60,6 +60,30 @@ fn gen_def(p: &mut Pool) -> Def {
             commands: true,
         };
     }
+    if repeated && p.rng.chance(1, 4) {
+        // a repeated choice between an adjacent group and single flags:
+        // `construct!([rect, mirror, verbose]).many()`
+        let choice = p.adjacent_group_in_choice();
+        let choice = match (wrapping, choice) {
+            (Wrapping::Some_, Spec::Wrap { id, inner, .. }) => Spec::Wrap {
+                w: W::Some_ { catch: false },
+                id,
+                inner,
+            },
+            (_, c) => c,
+        };
+        let n = branches_of(&choice).len();
+        let choice_ix = fields.len();
+        fields.push(choice);
+        return Def {
+            spec: OptSpec::plain(Spec::Seq(fields)),
+            choice_ix,
+            wrapping,
+            n_branches: n,
+            soft: false,
+            commands: false,
+        };
+    }
     let n = p.rng.range(2, 4);
     let commands = !repeated && p.rng.chance(1, 5);
     // "soft" alternatives can succeed without consuming anything (switch, optional argument)
@@ -168,6 +192,51 @@ pub fn run_case(case: &mut Case) {
                         .set("class", class.as_str())
                         .set("denotes", d.value.show()),
                 );
+            }
+        }
+        // (2'): under repetition, a one-word alternative written inside the block of an adjacent
+        // alternative mixes the two: the block is interrupted, the run fails
+        if matches!(def.wrapping, Wrapping::Many | Wrapping::Some_) && !def.commands {
+            let mut g = Gen::new(&mut rng);
+            g.presence = 6;
+            if let Some((_, units, _)) = sentence(
+                &b.spec.root,
+                &mut g,
+                OrderStyle::Random,
+                DashDash::IfNeeded,
+                SpellStyle::Canonical,
+            ) {
+                let block: Vec<usize> = (0..units.len())
+                    .filter(|i| units[*i].block.is_some() && units[*i].block == units.iter().find_map(|u| u.block))
+                    .collect();
+                // a flag of the choice outside any block (the choice's other alternatives are
+                // single required flags)
+                let choice_items = {
+                    let mut v = Vec::new();
+                    fields[def.choice_ix].level_items(&mut v);
+                    v.iter().map(|i| i.id).collect::<Vec<_>>()
+                };
+                let other = (0..units.len()).find(|i| {
+                    units[*i].block.is_none()
+                        && matches!(&units[*i].kind, UKind::Flag { item, .. } if choice_items.contains(item))
+                });
+                if let (true, Some(oi)) = (block.len() >= 3, other) {
+                    let mut m = units.clone();
+                    let u = m.remove(oi);
+                    // between the first and the last member of the block
+                    let lo = block[0] - usize::from(oi < block[0]);
+                    let at = lo + rng.range(1, block.len() - 1);
+                    m.insert(at, u);
+                    let line = render(&m, &mut rng, SpellStyle::Canonical);
+                    let class = format!("mixed:inside-adjacent-block:{}", kind);
+                    b.expect_stderr(
+                        case,
+                        &line.argv,
+                        &class,
+                        &format!("mixed-alternatives:inside-adjacent-block:{}", kind),
+                        "a one-word alternative written inside the block of an adjacent alternative",
+                    );
+                }
             }
         }
         // (2): mix two alternatives of a non-repeated choice
